@@ -399,6 +399,17 @@ func runC10(c *Ctx) {
 			}
 			msgs = append(msgs, m)
 		}
+		// twice (a unary and a bidi call): the first request message is EXACTLY as long as the default
+		// receive limit of grpc-go and of larking (4 MiB) — the backend takes it directly, so must the proxy
+		atLimit := (i == 68 || i == 71) && len(msgs) > 0
+		if atLimit {
+			m := msgs[0]
+			fd := m.Descriptor().Fields().ByName("data")
+			m.Set(fd, protoreflect.ValueOfBytes(make([]byte, 4<<20-64)))
+			for k := 0; k < 4 && proto.Size(m) != 4<<20; k++ {
+				m.Set(fd, protoreflect.ValueOfBytes(make([]byte, len(m.Get(fd).Bytes())+(4<<20-proto.Size(m)))))
+			}
+		}
 		mdFor := func(tag string) metadata.MD {
 			id++
 			eager := 0
@@ -411,6 +422,9 @@ func runC10(c *Ctx) {
 				"grpc-c10-tenant", "t1", "grpc-c10-trace-bin", string([]byte{9, 8, 0xff}))
 		}
 		in := fmt.Sprintf("%s msgs=%d backend: replies=%d code=%v failAt=%d msg=%q details=%v eager=%v clientMode=%d (0 half-close, 1 keeps open, 2 late send then half-close)", sh.name, nmsg, sc.replies, sc.code, sc.failAt, sc.msg, sc.details, sc.eager, mode)
+		if atLimit {
+			in += fmt.Sprintf(" first-message-size=%d (the receive limit)", proto.Size(msgs[0]))
+		}
 		c.Eval("proxy", in, true)
 		c.Class(sh.name + ":" + map[bool]string{true: "ok", false: "fail"}[sc.code == codes.OK])
 		dmd := mdFor("d")
